@@ -99,7 +99,20 @@ including those caused by the sessions the step closes, goes to a session of `b`
 connection of another tenant. -/
 theorem C03_isolation (h : Hub) (hi : Inv h) (op : Op) (b : Nat) (ho : originOf h op = some b) :
     ∀ o, o ∈ (step h op).2 → ∀ b', o.bk = some b' → b' = b :=
-  step_own h op hi ho
+  (step_own h op hi ho).1
+
+/-- **Isolation of what the server holds.**  Under the same hypotheses the record of every session of another
+backend — its room, Nextcloud session id, permissions, queued messages, connection, in-call flags, virtual
+sessions — is after the step exactly what it was before: nothing done on behalf of `b` (also not a room API call
+naming a Nextcloud session id that another backend uses, or a join that re-uses it) kicks, moves, mutes or
+re-permissions a session of another tenant. -/
+theorem C03_state_isolation (h : Hub) (hi : Inv h) (op : Op) (b : Nat) (ho : originOf h op = some b) :
+    ∀ t x, h.sess t = some x → x.backend ≠ b → (step h op).1.sess t = some x :=
+  (step_own h op hi ho).2
+
+theorem C03_state_isolation_reachable (ops : List Op) (op : Op) (b : Nat) (ho : originOf (run {} ops).1 op = some b) :
+    ∀ t x, (run {} ops).1.sess t = some x → x.backend ≠ b → (step (run {} ops).1 op).1.sess t = some x :=
+  C03_state_isolation _ (reachable_inv ops) op b ho
 
 /-- … in particular after every history. -/
 theorem C03_isolation_reachable (ops : List Op) (op : Op) (b : Nat) (ho : originOf (run {} ops).1 op = some b) :
